@@ -94,18 +94,26 @@ func c05Check(src []rune, part string) *mc.Failure {
 // c05VarInput: the input-variable front end must terminate; evaluation panics
 // belong to C10 and are not reported here.
 func c05VarInput(src string) *mc.Failure {
-	var f *mc.Failure
-	func() {
+	// one submission: error-ness, or the panic text (evaluation-time panics are C10's subject)
+	once := func() (outcome string) {
 		defer func() {
 			if p := recover(); p != nil {
-				st := fmt.Sprint(p)
-				_ = st
-				// evaluation-time panics are C10's; front-end panics are swallowed by Parser.Parse
+				outcome = "panic: " + fmt.Sprint(p)
 			}
 		}()
-		_, _ = exec.ExecVarInputText(src)
-	}()
-	return f
+		if _, err := exec.ExecVarInputText(src); err != nil {
+			return "error"
+		}
+		return "ok"
+	}
+	// the same text submitted again in the same process (a server worker does this
+	// for every request): the front end must answer the same way
+	a, b := once(), once()
+	if a != b {
+		return &mc.Failure{Kind: "mismatch", Bucket: "varinput-second-submission", Case: mc.J(c05Case{Part: "varinput", Source: src, Runes: toInts([]rune(src))}),
+			Expected: "the second submission of the same input text is answered like the first: " + a, Observed: b}
+	}
+	return nil
 }
 
 func c05Corpus() [][]rune {
@@ -143,7 +151,7 @@ func init() {
 	mc.Register(&mc.Check{
 		ID:    "C05",
 		Level: "exploration",
-		Rule:  "E1 exhaustive: (a) every sequence of <= L symbols over a 34-symbol alphabet (6 keywords as units, all 12 punctuation marks, quotes, backtick, space, TAB, CR, LF, newline+indent, a name, a digit, + = #, NUL, U+0085, an astral character); (b) for every program of a corpus of valid renderings: truncation at every offset, deletion and duplication of every rune, insertion of every alphabet symbol at every offset (and all pairs of deletions on a subset); (c) the same inputs through ExecVarInputText (termination); (d) long lines: 14 faulty tails behind 6 kinds of padding (a long text, a long name, a long sum, blanks, a long comment, a long list) of every width 0..160 (0..400 thorough) on the only line, on the last line and on a middle line. Oracle: terminates (watchdog), returns a tree xor a *SyntaxError with code != 0 and 0 <= position <= length, any returned tree passes the completeness walker, DisplayError succeeds and quotes a line of the source. Distinct by construction; non-trivial = not parsed successfully or longer than one symbol.",
+		Rule:  "E1 exhaustive: (a) every sequence of <= L symbols over a 34-symbol alphabet (6 keywords as units, all 12 punctuation marks, quotes, backtick, space, TAB, CR, LF, newline+indent, a name, a digit, + = #, NUL, U+0085, an astral character); (b) for every program of a corpus of valid renderings: truncation at every offset, deletion and duplication of every rune, insertion of every alphabet symbol at every offset (and all pairs of deletions on a subset); (c) the same inputs through ExecVarInputText, each text submitted twice in one process (termination; the second submission is answered like the first); (d) long lines: 14 faulty tails behind 6 kinds of padding (a long text, a long name, a long sum, blanks, a long comment, a long list) of every width 0..160 (0..400 thorough) on the only line, on the last line and on a middle line. Oracle: terminates (watchdog), returns a tree xor a *SyntaxError with code != 0 and 0 <= position <= length, any returned tree passes the completeness walker, DisplayError succeeds and quotes a line of the source. Distinct by construction; non-trivial = not parsed successfully or longer than one symbol.",
 		Assumptions: []string{
 			"a recovered Go runtime error leaking out of Parser.Parse as the error value is counted as a violation (it is not a syntax error with a position)",
 			"hang = no result for 20 s on an input whose normal cost is microseconds; confirmed in a fresh process",
@@ -354,6 +362,12 @@ func c05Replay(c *mc.Ctx, raw json.RawMessage) {
 	var cs c05Case
 	if err := json.Unmarshal(raw, &cs); err != nil {
 		c.Fail(mc.Failure{Kind: "crash", Observed: err.Error()})
+		return
+	}
+	if cs.Part == "varinput" {
+		if f := c05VarInput(string(toRunes(cs.Runes))); f != nil {
+			c.Fail(*f)
+		}
 		return
 	}
 	if f := c05Check(toRunes(cs.Runes), cs.Part); f != nil {
